@@ -40,6 +40,12 @@ def typed(v):
     if dataclasses.is_dataclass(v):
         return {"t": "rec", "cls": type(v).__module__ + "." + type(v).__name__,
                 "v": {f.name: typed(getattr(v, f.name)) for f in dataclasses.fields(v)}}
+    if hasattr(v, "_type") and hasattr(v, "_p_depth"):
+        # a C++ type object (cpp_types.terminal and subclasses)
+        d = {"type": typed(getattr(v, "_type")), "p_depth": typed(getattr(v, "_p_depth")), "text": typed(str(v))}
+        if hasattr(v, "_element_type"):
+            d["element"] = typed(getattr(v, "_element_type"))
+        return {"t": "rec", "cls": type(v).__module__ + "." + type(v).__name__, "v": d}
     return {"t": "opaque", "v": repr(v)}
 
 
